@@ -19,6 +19,8 @@ for d in sorted(glob.glob(os.path.join(V, "seeded", "*", "patch.diff"))):
     items.append((name, d, False, ALL if allp else [prop] + RELATED.get(name, [])))
 for d in sorted(glob.glob(os.path.join(V, "selftest", "*.patch"))):
     name = os.path.basename(d)[:-6]
+    if name.startswith("equiv-"):
+        continue            # behaviour-preserving refactorings: every check must stay silent (tools/equiv_check.py)
     prop = name.split("-")[0].upper()
     items.append(("selftest:" + name, d, False, [prop]))
 FIXPROP = {"D1": ["C19"], "D2": ["C04", "C20"], "D4": ["C16"], "D5": ["C12"], "D6": ["C08"], "D7": ["C14"], "D8": ["C18"]}
